@@ -632,6 +632,8 @@ class C30(HistoryProfile):
                "digests must be identical")
   quick_runs = 100
   thorough_runs = 1500
+  fresh_replay_attempts = 6
+  observed_difference_is_witness = True
   max_events = 26
   p_undo = 0.08
   p_redo_after_undo = 0.5
